@@ -96,13 +96,14 @@ def isNumLit (t : Bytes) : Prop := Json.Spec.pNumber t = some (t, [])
 
 instance (t : Bytes) : Decidable (isNumLit t) := by unfold isNumLit; exact inferInstance
 
-/-- members kept, in writing order: `(key as read back, value)` -/
-def normMembers (o : Opts) (nv : JV → JV) : Kvs → Kvs
+/-- members kept, in writing order: `(key as read back, value)`; `drop` says which values are left out -/
+def normMembers (drop : JV → Bool) (nv : JV → JV) : Kvs → Kvs
   | [] => []
-  | (k, v) :: r => if omits o v then normMembers o nv r else (sanitize k, nv v) :: normMembers o nv r
+  | (k, v) :: r => if drop v then normMembers drop nv r else (sanitize k, nv v) :: normMembers drop nv r
 
-/-- the tree the text has to denote (fuel = nesting depth + 1, see `norm`) -/
-def normF (o : Opts) (ord : Kvs → Kvs) : Nat → JV → JV
+/-- the tree a text has to denote when object members whose value satisfies `drop` are left out and
+the members are visited in the order `order srt ord` (fuel = nesting depth + 1) -/
+def normG (drop : JV → Bool) (srt : Bool) (ord : Kvs → Kvs) : Nat → JV → JV
   | 0, v => v
   | f+1, v =>
     match v with
@@ -113,10 +114,32 @@ def normF (o : Opts) (ord : Kvs → Kvs) : Nat → JV → JV
     | .big t => .num t
     | .num t => .num t
     | .str s => .str (sanitize s)
-    | .arr xs => .arr (xs.map (normF o ord f))
-    | .obj kvs => .obj (normMembers o (normF o ord f) (order o.sort ord kvs))
+    | .arr xs => .arr (xs.map (normG drop srt ord f))
+    | .obj kvs => .obj (normMembers drop (normG drop srt ord f) (order srt ord kvs))
+
+/-- the tree the text of an `oj` writer has to denote -/
+def normF (o : Opts) (ord : Kvs → Kvs) (f : Nat) (v : JV) : JV := normG (omits o) o.sort ord f v
 
 def norm (o : Opts) (ord : Kvs → Kvs) (v : JV) : JV := normF o ord (depth v + 1) v
+
+mutual
+  /-- what `pretty.Writer` leaves out of an object. It is NOT what the options say (known finding
+  C04-pretty-omit): empty arrays and maps go under OmitNil alone, and so does a map all of whose
+  members go. -/
+  def skipP (omitNil omitEmpty : Bool) : JV → Bool
+    | .null => omitNil
+    | .str s => omitEmpty && s.isEmpty
+    | .arr xs => (omitNil || omitEmpty) && xs.isEmpty
+    | .obj kvs => (omitNil || omitEmpty) && skipPAll omitNil omitEmpty kvs
+    | _ => false
+  def skipPAll (omitNil omitEmpty : Bool) : Kvs → Bool
+    | [] => true
+    | (_, x) :: r => skipP omitNil omitEmpty x && skipPAll omitNil omitEmpty r
+end
+
+/-- the tree the text of `pretty.JSON` denotes: members always in ascending key order, `skipP` left out -/
+def normP (omitNil omitEmpty : Bool) (ord : Kvs → Kvs) (v : JV) : JV :=
+  normG (skipP omitNil omitEmpty) true ord (depth v + 1) v
 
 /-- a legitimate map iteration: the members, each once, in some order -/
 def IsOrder (ord : Kvs → Kvs) : Prop := ∀ l, (ord l).Perm l
